@@ -3,6 +3,7 @@
    Shared by the extracted driver and by kernel evaluation (vm_compute). Definitions only. *)
 From Coq Require Import ZArith List Bool.
 Require Import Mido.Model.Base Mido.Model.Codec.
+Require Import Mido.Model.SendCopy.
 Import ListNotations.
 Open Scope Z_scope.
 
@@ -733,6 +734,45 @@ Definition run_port (inp : list Z) : list Z :=
       end
   | _ => bad_input
   end.
+(* ---- C11: the IOPort wrapper over an input port (the device script) and an output port (autoreset, faults) ---- *)
+Require Import Mido.Model.IOPortM.
+Definition out_iostate (io : ioport) : list Z :=
+  [if io_closed io then 1 else 0; if p_closed (io_in io) then 1 else 0; Z.of_nat (p_closes (io_in io)); if p_closed (io_out io) then 1 else 0;
+   Z.of_nat (p_closes (io_out io)); Z.of_nat (p_sleeps (io_in io)); Z.of_nat (p_calls (io_in io)); zlen (p_sent (io_out io)); zlen (p_queue (io_in io))].
+Fixpoint run_ioops (fuel : nat) (n : nat) (io : ioport) (l : list Z) : list Z :=
+  match n with
+  | O => []
+  | S k =>
+    let go o r := let '(io1, x) := io_step fuel io o in out_pout x ++ out_iostate io1 ++ [-9] ++ run_ioops fuel k io1 r in
+    match l with
+    | [] => out_list (p_sent (io_out io)) ++ out_list (p_queue (io_in io))
+    | 0 :: m :: r => go (IOSend m) r
+    | 1 :: b :: r => go (IOReceive (negb (b =? 0))) r
+    | 2 :: r => go IOPoll r
+    | 3 :: r => go IOIterPending r
+    | 4 :: c :: r => go (IOIterate (if c <? 0 then 1000%nat else Z.to_nat c)) r
+    | 5 :: r => go IOClose r
+    | 6 :: m :: r => go (IOWith m) r
+    | 7 :: r => go IOClose r
+    | 8 :: r => go IOReset r
+    | 9 :: r => go IOCloseIn r
+    | 10 :: r => go IOCloseOut r
+    | _ => bad_input
+    end
+  end.
+(* same input as run_port: [autoreset (of the output port); unused; fuel; faults (of the output device); script (of the input device); ops] *)
+Definition run_ioport (inp : list Z) : list Z :=
+  match inp with
+  | ar :: _ :: fuel :: r0 =>
+      match in_list r0 with
+      | Some (faults, ns :: r) =>
+          let '(script, ops) := in_actions (Z.to_nat ns) r in
+          run_ioops (Z.to_nat fuel) (S (length ops))
+                    (new_ioport (new_port false false script []) (new_port (negb (ar =? 0)) false [] (map (fun x => negb (x =? 0)) faults))) ops
+      | _ => bad_input
+      end
+  | _ => bad_input
+  end.
 Fixpoint in_subs (n : nat) (l : list Z) : list port * list Z :=
   match n with
   | O => ([], l)
@@ -943,6 +983,7 @@ Fixpoint in_iops (fuel : nat) (l : list Z) : option (list iop) :=
       else if k =? 5 then match r with n :: r' => option_map (cons (IOp (PIterTake (Z.to_nat n)))) (in_iops f r') | [] => None end
       else if k =? 6 then option_map (cons INew) (in_iops f r)
       else if k =? 7 then option_map (cons INext) (in_iops f r)
+      else if k =? 8 then match r with n :: r' => option_map (cons (INextK (Z.to_nat n))) (in_iops f r') | [] => None end
       else None
     end
   end.
@@ -961,4 +1002,75 @@ Definition run_dec_items (inp : list Z) : list Z :=
               | _ => bad_input
               end
   | [] => bad_input
+  end.
+
+(* ---- C10: objects around send (copy, not alias) ---- *)
+Fixpoint in_scops (fuel : nat) (l : list Z) : option (list sc_op) :=
+  match fuel with
+  | O => match l with [] => Some [] | _ => None end
+  | S f =>
+    match l with
+    | [] => Some []
+    | k :: r =>
+      if k =? 0 then match r with v :: r' => option_map (cons (SNew v)) (in_scops f r') | _ => None end
+      else if k =? 1 then match r with i :: v :: r' => option_map (cons (SSet (Z.to_nat i) v)) (in_scops f r') | _ => None end
+      else if k =? 2 then match r with i :: r' => option_map (cons (SSend (Z.to_nat i))) (in_scops f r') | _ => None end
+      else if k =? 3 then match r with i :: r' => option_map (cons (SRecv (Z.to_nat i))) (in_scops f r') | _ => None end
+      else if k =? 4 then match r with i :: v :: r' => option_map (cons (SSetGot (Z.to_nat i) v)) (in_scops f r') | _ => None end
+      else None
+    end
+  end.
+(* [copying; nqueues; ops...] -> values of the received objects, values of the caller's objects, 1 if a received object is a caller's object *)
+Definition run_send_copy (inp : list Z) : list Z :=
+  match inp with
+  | c :: n :: r =>
+      match in_scops (length r) r with
+      | Some ops => let '(g, m, a) := sc_observe (sc_run (negb (c =? 0)) (Z.to_nat n) ops) in out_list g ++ out_list m ++ out_bool a
+      | None => bad_input
+      end
+  | _ => bad_input
+  end.
+
+(* ---- C10: threads on a MultiPort over EchoPorts (fan-out) ---- *)
+Require Import Mido.Model.ConcFan.
+Fixpoint in_fops (n : nat) (l : list Z) : option (list fop * list Z) :=
+  match n with
+  | O => Some ([], l)
+  | S k =>
+      match l with
+      | 0 :: r => match in_msg r with
+                  | Some (m, r1) => match in_fops k r1 with Some (os, r') => Some (FSend m :: os, r') | None => None end
+                  | None => None
+                  end
+      | 1 :: sub :: b :: r => match in_fops k r with Some (os, r') => Some (FRecv (Z.to_nat sub) (negb (b =? 0)) :: os, r') | None => None end
+      | 2 :: sub :: r => match in_fops k r with Some (os, r') => Some (FIterPending (Z.to_nat sub) [] :: os, r') | None => None end
+      | _ => None
+      end
+  end.
+Fixpoint in_fprogs (n : nat) (l : list Z) : option (list (list fop) * list Z) :=
+  match n with
+  | O => Some ([], l)
+  | S k => match l with
+           | c :: r => match in_fops (Z.to_nat c) r with
+                       | Some (os, r1) => match in_fprogs k r1 with Some (ps, r') => Some (os :: ps, r') | None => None end
+                       | None => None
+                       end
+           | [] => None
+           end
+  end.
+Definition out_fthread (th : fthread) : list Z :=
+  (match fat th with FRaised e => [2; exn_code e] | FStart => (match fprog th with [] => [0; 0] | _ => [1; 0] end) | _ => [1; 0] end)
+  ++ zlen (fresults th) :: flat_map out_result (fresults th).
+(* [nsubs; nthreads; per thread: nops ops...; schedule...] -> per thread state and results; the queues of the MultiPort (never used here) and of the sub-ports; sleeps *)
+Definition run_conc_fan (inp : list Z) : list Z :=
+  match inp with
+  | ns :: nt :: r =>
+      match in_fprogs (Z.to_nat nt) r with
+      | Some (progs, sched) =>
+          let '(s, ts) := frun (map Z.to_nat sched) (finit (Z.to_nat ns) (fun t => nth t progs [])) in
+          flat_map (fun t => out_fthread (ts t) ++ [-9]) (seq 0 (length progs))
+          ++ flat_map (fun i => out_msgs (fq s i)) (seq 0 (S (Z.to_nat ns))) ++ [Z.of_nat (fsleeps s)]
+      | None => bad_input
+      end
+  | _ => bad_input
   end.
